@@ -1197,4 +1197,41 @@ theorem part_inside (tw aw i : Nat) (h1 : ¬ aw ≥ tw) (h2 : ¬ i > tw / aw - 1
 
 theorem width_pos (acc : PAccess) : 0 < acc.width := by cases acc <;> simp [PAccess.width]
 
+
+/-! ### `execute_cycle` -/
+
+/-- Unfolding of a successful cycle. -/
+theorem cycle_ok (bs : List Binding) (rt : Rt) (drv : List DrvIn) (dbg : Dbg) (tasks : List Task)
+    (bg : List Prog) (h : (cycle bs rt drv dbg tasks bg).err = none) :
+    rt.faulted = false ∧ (readCycleInputs bs rt.io rt.store drv dbg).err = none ∧
+    (programPhase tasks bg (readCycleInputs bs rt.io rt.store drv dbg).store).err = none ∧
+    (writeCycleOutputs bs (readCycleInputs bs rt.io rt.store drv dbg).io
+      (programPhase tasks bg (readCycleInputs bs rt.io rt.store drv dbg).store).store drv dbg).err = none ∧
+    cycle bs rt drv dbg tasks bg =
+      { rt := { io := (writeCycleOutputs bs (readCycleInputs bs rt.io rt.store drv dbg).io
+                  (programPhase tasks bg (readCycleInputs bs rt.io rt.store drv dbg).store).store drv dbg).io,
+                store := (programPhase tasks bg (readCycleInputs bs rt.io rt.store drv dbg).store).store,
+                faulted := false },
+        log := .cycleStart :: (readCycleInputs bs rt.io rt.store drv dbg).evs ++
+          (programPhase tasks bg (readCycleInputs bs rt.io rt.store drv dbg).store).evs ++
+          (writeCycleOutputs bs (readCycleInputs bs rt.io rt.store drv dbg).io
+            (programPhase tasks bg (readCycleInputs bs rt.io rt.store drv dbg).store).store drv dbg).evs ++ [.cycleEnd],
+        err := none } := by
+  unfold cycle at h ⊢
+  by_cases hf : rt.faulted = true
+  · simp [hf] at h
+  · simp only [hf, if_false, Bool.false_eq_true] at h ⊢
+    cases hie : (readCycleInputs bs rt.io rt.store drv dbg).err with
+    | some pe => simp [hie, failWith] at h
+    | none =>
+      simp only [hie] at h ⊢
+      cases hpe : (programPhase tasks bg (readCycleInputs bs rt.io rt.store drv dbg).store).err with
+      | some pe => simp [hpe, failWith] at h
+      | none =>
+        simp only [hpe] at h ⊢
+        cases hoe : (writeCycleOutputs bs (readCycleInputs bs rt.io rt.store drv dbg).io
+            (programPhase tasks bg (readCycleInputs bs rt.io rt.store drv dbg).store).store drv dbg).err with
+        | some pe => simp [hoe, failWith] at h
+        | none => exact ⟨by simp, trivial, trivial, rfl, rfl⟩
+
 end TrustVerif.C07
